@@ -47,6 +47,11 @@ class Executor(Exec):
             return self.call_modattr(f.name, args, kw, st, k)
         if f.kind == "name":
             return self.call_name(f.name, args, kw, st, k)
+        if f.kind == "noop":
+            return k(SNone(), st)
+        if f.kind == "boundfn":
+            fn, selfv, owner = f.recv
+            return self.call_function(fn, [selfv] + args, kw, st, k, owner=owner)
         if f.kind == "emptydict":
             raise Unsupported("call of a dict")
         raise Unsupported(f"call {f}")
@@ -153,6 +158,19 @@ class Executor(Exec):
             return k(SPrim("Id", S.Id.IntId(v)), st)
         if name == "cast":
             return k(args[1], st)
+        if name == "super":
+            selfv = st.env.get("self")
+            cur = st.env.get("__class__")
+            if selfv is None or cur is None: raise Unsupported("super() outside a method")
+            cell = st.cell(selfv.ref) if isinstance(selfv, SRef) else None
+            dyn = RESOLVE_AS.get(cell.cls, cell.cls) if cell is not None else selfv.cls
+            return k(SClosure("super", cur.name, recv=(dyn, selfv)), st)
+        if name == "type" and len(args) == 1:
+            v = args[0]
+            if isinstance(v, SRef) and isinstance(st.cell(v.ref), ObjCell):
+                return k(SClosure("name", st.cell(v.ref).cls), st)
+            if isinstance(v, SPrim) and v.ty in self.P.classes: return k(SClosure("name", v.ty), st)
+            raise Unsupported("type() of a builtin value")
         if name == "str":
             v = args[0]
             if isinstance(v, SPrim) and v.ty == "str": return k(v, st)
@@ -273,6 +291,9 @@ class Executor(Exec):
 
     # methods of builtin containers and of program classes
     def call_method(self, recv, name, args, kw, st, k):
+        if isinstance(recv, SPrim) and (recv.ty, name) in S.OPAQUE_METHODS:
+            ty, f = S.OPAQUE_METHODS[(recv.ty, name)]
+            return k(S.wrap(ty, f(recv.t)), st)
         if isinstance(recv, SRef):
             c = st.cell(recv.ref)
             if isinstance(c, ObjCell):
